@@ -783,15 +783,27 @@ def enum_lookup(it, cls, value):
 
 
 # ------------------------------------------------------------------ hashing
+def frozen_bytes(it, v):
+    """the value of a byte buffer at this moment: a mutable bytearray (or a view of one) is copied, as a hash function reads it once"""
+    if isinstance(v, K) and isinstance(v.v, bytearray):
+        return K(bytes(v.v))
+    if isinstance(v, K) and type(v.v).__name__ == 'SymBuf':
+        return v.v.rope.simplify()
+    if type(v).__name__ == 'MemView':
+        r = v.rope_value(it)
+        return K(bytes(r.v)) if isinstance(r, K) else r
+    return v
+
+
 class Hasher:
     def __init__(self, algo, first=None):
         self.algo = algo
-        self.log = [] if first is None else [first]
+        self.log = [] if first is None else [frozen_bytes(None, first)]
 
     def abs_attr(self, it, a, n):
         if a == 'update':
             def upd(it, args, kw, node):
-                self.log.append(args[0])
+                self.log.append(frozen_bytes(it, args[0]))
                 return K(None)
             return Native(upd, 'hash.update')
         if a == 'digest':
